@@ -56,20 +56,12 @@ structure Inv (t : Table) (n : Nat) (u : PUnit Rat) : Prop where
   pw : ∀ i, u.powers.getD i 0 = namesPAt t i u.names
   atoms : ∀ kv ∈ u.names, AtomOK t n kv.1
 
-/-- only Python ints as exponents in `_names` (no inverse-integer power was taken) -/
-def IntNames (ns : Names Rat) : Prop := ∀ kv ∈ ns, kv.2.isF = false
+/-- the atom, if it is a unit name, denotes a unit without offset -/
+def AtomOffFree (t : Table) (k : Atom Rat) : Prop :=
+  ∀ s, k = Atom.sym s → ∀ u, tlookup t s = some u → u.offset = 0
 
 /-- every unit name in `_names` denotes a unit without offset -/
-def OffFree (t : Table) (ns : Names Rat) : Prop :=
-  ∀ kv ∈ ns, ∀ s, kv.1 = Atom.sym s → ∀ u, tlookup t s = some u → u.offset = 0
-
-/-- numbers in `_names` are positive (the `str()` of a negative number followed by `**` parses
-with a different precedence) -/
-def LitsPos (ns : Names Rat) : Prop :=
-  ∀ kv ∈ ns, match kv.1 with
-    | .sym _ => True
-    | .litI i => 0 < i
-    | .litF q => 0 < q
+def OffFree (t : Table) (ns : Names Rat) : Prop := ∀ kv ∈ ns, AtomOffFree t kv.1
 
 /-- well-formed table: non-zero factors, `n` dimensions, each entry named by a key of the same unit -/
 def TableOK (t : Table) (n : Nat) : Prop :=
@@ -133,25 +125,6 @@ theorem ndBump_keys (P : Atom Rat → Prop) (ns : Names Rat) (k : Atom Rat) (v :
       · subst h; exact hns (k', w) (List.mem_cons_self ..)
       · exact ih (fun kv hkv => hns kv (List.mem_cons_of_mem _ hkv)) kv h
 
-theorem ndBump_isF (ns : Names Rat) (k : Atom Rat) (v : Pw)
-    (hns : IntNames ns) (hv : v.isF = false) : IntNames (ndBump ns k v) := by
-  induction ns with
-  | nil => intro kv h; simp [ndBump] at h; subst h; simp [Pw.add, Pw.zero, hv]
-  | cons kw rest ih =>
-    obtain ⟨k', w⟩ := kw
-    intro kv h
-    unfold ndBump at h
-    split at h
-    · rcases List.mem_cons.mp h with h | h
-      · subst h
-        have := hns (k', w) (List.mem_cons_self ..)
-        simp at this
-        simp [Pw.add, this, hv]
-      · exact hns kv (List.mem_cons_of_mem _ h)
-    · rcases List.mem_cons.mp h with h | h
-      · subst h; exact hns (k', w) (List.mem_cons_self ..)
-      · exact ih (fun kv hkv => hns kv (List.mem_cons_of_mem _ hkv)) kv h
-
 theorem namesF_ndAdd (t : Table) (n : Nat) (a b : Names Rat) (hb : ∀ kv ∈ b, AtomOK t n kv.1) :
     namesF t (ndAdd a b) = namesF t a * namesF t b := by
   unfold ndAdd
@@ -181,15 +154,6 @@ theorem ndAdd_keys (P : Atom Rat → Prop) (a b : Names Rat)
   | cons kv rest ih =>
     simp only [List.foldl_cons]
     exact ih _ (ndBump_keys P a kv.1 kv.2 ha (hb kv (List.mem_cons_self ..)))
-      (fun kv' h => hb kv' (List.mem_cons_of_mem _ h))
-
-theorem ndAdd_isF (a b : Names Rat) (ha : IntNames a) (hb : IntNames b) : IntNames (ndAdd a b) := by
-  unfold ndAdd
-  induction b generalizing a with
-  | nil => simpa using ha
-  | cons kv rest ih =>
-    simp only [List.foldl_cons]
-    exact ih _ (ndBump_isF a kv.1 kv.2 ha (hb kv (List.mem_cons_self ..)))
       (fun kv' h => hb kv' (List.mem_cons_of_mem _ h))
 
 theorem namesF_ndSub (t : Table) (n : Nat) (a b : Names Rat) (hb : ∀ kv ∈ b, AtomOK t n kv.1) :
@@ -226,21 +190,12 @@ theorem ndSub_keys (P : Atom Rat → Prop) (a b : Names Rat)
     exact ih _ (ndBump_keys P a kv.1 _ ha (hb kv (List.mem_cons_self ..)))
       (fun kv' h => hb kv' (List.mem_cons_of_mem _ h))
 
-theorem ndSub_isF (a b : Names Rat) (ha : IntNames a) (hb : IntNames b) : IntNames (ndSub a b) := by
-  unfold ndSub
-  induction b generalizing a with
-  | nil => simpa using ha
-  | cons kv rest ih =>
-    simp only [List.foldl_cons]
-    refine ih _ (ndBump_isF a kv.1 _ ha ?_) (fun kv' h => hb kv' (List.mem_cons_of_mem _ h))
-    simpa [Pw.neg] using hb kv (List.mem_cons_self ..)
-
 theorem namesF_ndScale (t : Table) (m : Int) (a : Names Rat) :
     namesF t (ndScale m a) = namesF t a ^ m := by
   induction a with
   | nil => simp [ndScale, namesF]
   | cons kv rest ih =>
-    have : ndScale m (kv :: rest) = (kv.1, ⟨m * kv.2.v, kv.2.isF⟩) :: ndScale m rest := by
+    have : ndScale m (kv :: rest) = (kv.1, ⟨m * kv.2.v⟩) :: ndScale m rest := by
       simp [ndScale]
     rw [this, namesF_cons, namesF_cons, ih, mul_zpow, ← zpow_mul, mul_comm m]
 
@@ -249,19 +204,13 @@ theorem namesPAt_ndScale (t : Table) (i : Nat) (m : Int) (a : Names Rat) :
   induction a with
   | nil => simp [ndScale, namesPAt]
   | cons kv rest ih =>
-    have : ndScale m (kv :: rest) = (kv.1, ⟨m * kv.2.v, kv.2.isF⟩) :: ndScale m rest := by
+    have : ndScale m (kv :: rest) = (kv.1, ⟨m * kv.2.v⟩) :: ndScale m rest := by
       simp [ndScale]
     rw [this, namesPAt_cons, namesPAt_cons, ih]
     ring
 
 theorem ndScale_keys (P : Atom Rat → Prop) (m : Int) (a : Names Rat)
     (ha : ∀ kv ∈ a, P kv.1) : ∀ kv ∈ ndScale m a, P kv.1 := by
-  intro kv h
-  simp only [ndScale, List.mem_map] at h
-  obtain ⟨kv', hk, rfl⟩ := h
-  exact ha kv' hk
-
-theorem ndScale_isF (m : Int) (a : Names Rat) (ha : IntNames a) : IntNames (ndScale m a) := by
   intro kv h
   simp only [ndScale, List.mem_map] at h
   obtain ⟨kv', hk, rfl⟩ := h
@@ -340,19 +289,15 @@ theorem Inv.factor_ne_zero {t : Table} {n : Nat} {u : PUnit Rat} (h : Inv t n u)
   exact this _ h.atoms
 
 theorem inv_lookup {t : Table} {n : Nat} (hT : TableOK t n) {s : String} {u : PUnit Rat}
-    (h : tlookup t s = some u) : Inv t n u ∧ IntNames u.names := by
+    (h : tlookup t s = some u) : Inv t n u := by
   obtain ⟨hf, hl, a, hn, ha⟩ := hT s u h
-  refine ⟨⟨?_, hl, ?_, ?_⟩, ?_⟩
+  refine ⟨?_, hl, ?_, ?_⟩
   · simp [hn, namesF, atomF, ha, Pw.one]
   · intro i; simp [hn, namesPAt, atomPAt, ha, Pw.one]
   · intro kv hkv
     simp [hn] at hkv
     subst hkv
     exact ⟨u, ha, hf, hl⟩
-  · intro kv hkv
-    simp [hn] at hkv
-    subst hkv
-    rfl
 
 theorem inv_mul {t : Table} {n : Nat} {a b c : PUnit Rat} (ha : Inv t n a) (hb : Inv t n b)
     (h : mul a b = .ok c) : Inv t n c := by
@@ -432,18 +377,20 @@ theorem inv_rdiv {t : Table} {n : Nat} {a c : PUnit Rat} {x : Rat} {k : Atom Rat
   unfold rdiv at h
   split at h
   · simp at h
-  · simp at h
-    subst h
-    have hkk : ∀ kv ∈ [(k, Pw.one)], AtomOK t n kv.1 := by
-      intro kv hkv; simp at hkv; subst hkv; exact hk
-    refine ⟨?_, by simp [ha.len], ?_, ?_⟩
-    · simp only [namesF_ndSub t n _ _ ha.atoms, ha.fac]
-      simp [namesF, Pw.one, hx]
-    · intro i
-      simp only [namesPAt_ndSub]
-      rw [getD_map_neg, ha.pw]
-      simp [namesPAt, hp]
-    · exact ndSub_keys _ _ _ hkk ha.atoms
+  · split at h
+    · simp at h
+    · simp at h
+      subst h
+      have hkk : ∀ kv ∈ [(k, Pw.one)], AtomOK t n kv.1 := by
+        intro kv hkv; simp at hkv; subst hkv; exact hk
+      refine ⟨?_, by simp [ha.len], ?_, ?_⟩
+      · simp only [namesF_ndSub t n _ _ ha.atoms, ha.fac]
+        simp [namesF, Pw.one, hx]
+      · intro i
+        simp only [namesPAt_ndSub]
+        rw [getD_map_neg, ha.pw]
+        simp [namesPAt, hp]
+      · exact ndSub_keys _ _ _ hkk ha.atoms
 
 theorem inv_powI {t : Table} {n : Nat} {a c : PUnit Rat} {m : Int} (ha : Inv t n a)
     (h : powI a m = .ok c) : Inv t n c := by
@@ -476,19 +423,15 @@ theorem offFreeB_sound {t : Table} {ns : Names Rat} (h : offFreeB t ns = true) :
   simp only [hs, hu] at this
   simpa using this
 
-def litsPosB (ns : Names Rat) : Bool :=
-  ns.all (fun kv => match kv.1 with
-    | .sym _ => true
-    | .litI i => decide (0 < i)
-    | .litF q => decide (0 < q))
+/-- a number is not a unit name -/
+theorem atomOffFree_key (t : Table) (x : NumV) : AtomOffFree t x.key := by
+  intro s hs
+  cases x <;> simp [NumV.key] at hs
 
-theorem litsPosB_sound {ns : Names Rat} (h : litsPosB ns = true) : LitsPos ns := by
-  intro kv hkv
-  have := List.all_eq_true.mp h kv hkv
-  cases hk : kv.1 with
-  | sym s => trivial
-  | litI i => simp only [hk] at this; simpa using this
-  | litF q => simp only [hk] at this; simpa using this
+theorem offFree_single (t : Table) (k : Atom Rat) (p : Pw) (hk : AtomOffFree t k) :
+    OffFree t [(k, p)] := by
+  intro kv h; simp at h; subst h; exact hk
+
 
 /-! ### table lookups -/
 
